@@ -26,7 +26,7 @@ SPECS = [
              "scope_arg_visible(ext_arg(0, 1), 'macroname') == 'e1'",
              "scope_arg_visible(ext_arg(0, 1), '__slot_s') is not UNBOUND()",
              # the filler is not run by the caller; the macro's output lands between A and B
-             "holes(1) == 0",
+             "holes_here(1) == 0",
              "S() == S0() + 'A' + ext_out(0) + 'B'",
              # afterwards: the macro's global definitions are visible, macroname is restored
              "globals_visible('macroname')",
@@ -42,7 +42,7 @@ SPECS = [
              # expression, the enclosing function must not add an unrelated one (C12)
              "ext_token(0) is None",
          ] + [c % {'i': 0} for c in CALL] + [
-             "holes(1) == 0",
+             "holes_here(1) == 0",
              "S() == S0() + 'A' + ext_out(0) + 'B'",
              "globals_visible()",
          ],
